@@ -116,6 +116,7 @@ def classify(lines, idx, verdict):
     oblig = verdict.split()[0] if verdict else "?"
     tshort = tname.split("_", 1)[1]
     tags = [oblig, "T_" + tshort, "T_" + type_class(tshort)]
+    if len(hist) > 6 and hist[6] == "lim=1": tags.append("limit_history")
     # the operation a `res`/`exc`/`crash` line belongs to
     op = None
     for l in reversed(lines[:idx + 1]):
@@ -255,13 +256,20 @@ def classify(lines, idx, verdict):
             site = "%s::%s(%s)" % (cls, cls, {"cons": "Constraint_System", "gens": "Generator_System", "poly": "Polyhedron",
                                                "grid": "Grid", "from": "shape:" + (op[4] if len(op) > 4 else "?"),
                                                "univ": "UNIVERSE", "empty": "EMPTY"}.get(how, how))
-            if how in ("poly",): tags.append("complexity_" + op[5])
+            if how in ("poly",):
+                tags.append("complexity_" + op[5])
+                try:
+                    prow = parse_cs_rows(op[7:], int(op[2]))[0]
+                    if any(sum(1 for c in r[2] if c < 0) >= 2 or (r[0] == "=" and len(nonzero(r[2])) >= 2) for r in prow):
+                        tags.append("row_two_negative_coefficients")
+                except Exception:
+                    pass
             if how in ("grid", "from"): tags.append("complexity_" + (op[4] if how == "grid" else op[5]))
             if how == "grid" and int(op[5]) > 1: tags.append("grid_has_direction")
             if how == "from": tags.append("source_" + op[4])
             tags += arg_number_tags(op[4:], tname, tags)
             tags += overflow_tags([], op[4:], tname, cls)
-            if "T_native_int" in tags and "native_int_negative_coefficient" in tags: tags.append(cls + "_native_int_negative_coefficient")
+
         else:
             name = op[2]
             site = "%s::%s" % (cls, METHOD.get(name, name))
@@ -288,13 +296,12 @@ def classify(lines, idx, verdict):
                             any(r[0] == ">" for r in (rr or []) + r2):
                         tags.append("exact_union_denied_open_bound_involved")
             if "lhs_ge2_vars" in tags and "recv_SPR" in tags: tags.append("lhs_ge2_vars_recv_reduced")
-            if kind == "box" and "T_float" in tags and name in ("refine_cons", "refine_cgs", "bnd_img", "bnd_pre", "gen_img", "gen_img2", "gen_pre", "gen_pre2"):
-                tags.append("Box_float_refine_rounding")     # these call refine_with_constraint / propagate_constraint internally
+            if kind == "box" and "T_float" in tags and name in ("refine_cons", "refine_cgs", "add_cgs", "bnd_img", "bnd_pre", "gen_img", "gen_img2", "gen_pre", "gen_pre2"):
+                tags.append("float_propagation_via_refine")     # these call refine_with_constraint / propagate_constraint_no_check
             tags += arg_number_tags(op[3:], tname, tags)
             r2x = rows_of_slot(lines, opi, op[3]) if len(op) == 4 else None
             tags += overflow_tags([rr, r2x], op[3:], tname, cls)
-            if "T_native_int" in tags and ("native_int_negative_coefficient" in tags or "inverse_relation_divides_by_minus_coefficient" in tags):
-                tags.append(cls + "_native_int_negative_coefficient")
+
         if t[0] == "res":
             try:
                 resrows = parse_cs_rows(t[4:], int(t[2]))[0]
@@ -320,8 +327,6 @@ def classify(lines, idx, verdict):
             tags += overflow_tags([now, before], [], tname, cls)
         except Exception:
             pass
-    if "bound_near_limit_of_T" in tags:
-        tags.append("%s_%s_bound_near_limit" % (cls, type_class(tshort)))
     return site, tags
 
 
@@ -364,7 +369,10 @@ def arg_number_tags(args, tname, tags):
 
 
 def overflow_tags(rows_list, args, tname, cls):
-    """bounded T: |coefficient| * |bound| or a bound itself can leave the finite range of T"""
+    """bounded T: structural overflow classes of the operands (rows) and of the integers in the arguments
+       * native_int_product_overflows_T : T a bounded integer type and |coefficient| * |bound| (or |bound| + |constant|)
+                                          exceeds the largest finite value of T
+       * bound_ge_half_max_of_T         : a bound b with 2*|b| beyond the finite range (octagons store 2*b for unary constraints)"""
     tshort = tname.split("_", 1)[1]
     hi = LIMITS.get(tshort)
     if hi is None: return []
@@ -377,9 +385,14 @@ def overflow_tags(rows_list, args, tname, cls):
     for a in args:
         try: ints.append(abs(int(a)))
         except ValueError: pass
-    if big * 4 >= hi or max(ints) * 4 >= hi or (big + 1) * max(ints) * 2 >= hi:
-        return ["%s_%s_overflow_reachable" % (cls, type_class(tshort))]
-    return []
+    out = []
+    # the two largest magnitudes among the bounds of the operands and the integers of the arguments
+    vals = sorted([big] + ints, reverse=True)[:2]
+    if type_class(tshort) == "native_int" and (vals[0] > hi or vals[0] + vals[1] > hi or (vals[1] >= 2 and vals[0] * vals[1] > hi)):
+        out.append("native_int_product_overflows_T")
+    if big * 2 >= hi or max(ints) * 2 >= hi:
+        out.append("bound_ge_half_max_of_T")
+    return out
 
 
 def status_flags(lines, upto, slot):
@@ -443,6 +456,8 @@ def op_tags(name, args, n, kind):
             rows, _ = parse_cs_rows(args, n)
             if any(r[0] == ">" and nonzero(r[2]) for r in rows): tags.append("strict_row")
             if any(len(nonzero(r[2])) > 2 for r in rows): tags.append("row_3_vars")
+            if any(sum(1 for c in r[2] if c < 0) >= 2 or (r[0] == "=" and len(nonzero(r[2])) >= 2) for r in rows):
+                tags.append("row_two_negative_coefficients")
     except Exception:
         tags.append("unparsed_args")
     return tags
